@@ -170,6 +170,10 @@ pub async fn run_sender_with_config(
     // Run housekeeping once before entering the main event loop so we start in a clean state.
     {
         let classic = config.mode().is_classic();
+        let conn_timeout_ms = config.snapshot().conn_timeout_ms;
+        for conn in connections.iter_mut() {
+            conn.set_conn_timeout_ms(conn_timeout_ms);
+        }
         if let Err(err) = handle_housekeeping(
             &mut connections,
             &mut conn_io,
@@ -251,6 +255,10 @@ pub async fn run_sender_with_config(
                     }
                     _ = housekeeping_timer.tick() => {
                         let classic = config.mode().is_classic();
+                        let conn_timeout_ms = config.snapshot().conn_timeout_ms;
+                        for conn in connections.iter_mut() {
+                            conn.set_conn_timeout_ms(conn_timeout_ms);
+                        }
                         if let Err(err) = handle_housekeeping(
                             &mut connections,
                             &mut conn_io,
